@@ -703,6 +703,34 @@ def _psbt_job(spec, lines, preds):
                 c = dict(case0, tamper=name, pos=pos, variant=vi, style="caller map" if hmap else "global xpubs")
                 lines.append(("describe_tampered", c, request("fixed", traw, hmap, o), ans))
                 preds.append(("tampered_rejected", dict(c, pred="tampered_rejected"), ans == REJECT, ans[:160], REJECT))
+    # the same tampering on the LIVE object: parse, validate and summarise the honest PSBT once, swap the change
+    # output's scriptPubKey in place (no serialise / re-parse in between), summarise again — the second summary
+    # must be refused (a validation result remembered from before the edit would label the attacker's output change)
+    if b.change_pos is not None:
+        from buidl.script import P2WSHScriptPubKey, P2SHScriptPubKey
+        lrng = random.Random(f"{spec['seed']}:live")
+        for label, hmap in styles[:2]:
+            with PC.Oracle():
+                try:
+                    lp = PC.reparse(raw)
+                    lp.validate()
+                    lp.describe_basic_multisig(hdpubkey_map=hmap or {})
+                    old_spk = lp.psbt_outs[b.change_pos].tx_out.script_pubkey
+                    new_spk = P2WSHScriptPubKey(PC.rbytes(lrng, 32)) if len(old_spk.raw_serialize()) == 34 \
+                        else P2SHScriptPubKey(PC.rbytes(lrng, 20))
+                    lp.tx_obj.tx_outs[b.change_pos].script_pubkey = new_spk
+                    try:
+                        d2 = lp.describe_basic_multisig(hdpubkey_map=hmap or {})
+                        lab = d2["outputs_desc"][b.change_pos]["is_change"]
+                        ans = "summarised, swapped output labelled change" if lab else "summarised, not change"
+                    except Exception:
+                        ans = REJECT
+                except Exception as e:
+                    ans = None          # the honest PSBT itself is refused: covered by the honest stream
+            if ans is not None:
+                c = dict(case0, tamper="swap_change_spk_live_object", pos=0, variant=0, style=label)
+                preds.append(("tampered_rejected", dict(c, pred="tampered_rejected"), ans == REJECT, ans, REJECT))
+
     # the change output under every {scriptPubKey} x {RedeemScript record} x {WitnessScript record} combination: the
     # verdict is the model's; independently, a change label requires the scriptPubKey itself to commit to the script
     if b.change_pos is not None and spec["stype"] != "p2sh-p2wsh":
